@@ -13,12 +13,13 @@ RULE = ('histories of 1-6 hypotheses over {a,b,c} (len 0-6; classes: random, pre
         'empty hypotheses, all orders of a small set) with positive scores, through add_hypothese / produce_cn_from_boh / normalize_cn / '
         'best_cn_path / sorted_cn_paths. non-trivial = at least two different non-empty hypotheses; distinct = hash of the history Weights many orders of magnitude apart; peaky bags; single hypotheses of 1000-1500 symbols. Bags as generators; default weights on a bag built with another LM scale.')
 RULE += ' Round 6: A second network after add + sort on the same bag; hypotheses of class indices; a network of 3^13 paths.'
+RULE += ' Round 9: Bags whose raw weights are all positive but subnormal.'
 RULE += ' Round 7: Raw masses within 1e-6 of 1; a light hypothesis added after normalisation; hypotheses of more than 4096 symbols.'
 ASSUMPTIONS = ['symbols are 1-character strings (sorted_cn_paths concatenates them)',
                'all readable strings are enumerated when the network has <= 4000 arc combinations, otherwise only the added hypotheses are required to stay readable']
 N = {'quick': 4000, 'thorough': 300000}
 CLASSES = ['random', 'prefix_suffix', 'end_burst', 'start_burst', 'middle_burst', 'with_empty', 'permutations', 'boh', 'boh_lm', 'single', 'wide_scores', 'long_single']
-REQUIRED = ['hypotheses_over_4096_symbols_added', 'networks_with_raw_mass_within_1e-6_of_1', 'networks_after_add_and_sort', 'hypotheses_of_class_indices', 'million_path_networks', 'bags_as_one_shot_iterables', 'default_weight_networks', 'networks_over_1000_positions', 'peaky_bags', 'wide_score_histories', 'adds_checked', 'old_readable_checked', 'weight_checked', 'paths_checked', 'boh_checked', 'single_checked']
+REQUIRED = ['bags_of_subnormal_weights', 'hypotheses_over_4096_symbols_added', 'networks_with_raw_mass_within_1e-6_of_1', 'networks_after_add_and_sort', 'hypotheses_of_class_indices', 'million_path_networks', 'bags_as_one_shot_iterables', 'default_weight_networks', 'networks_over_1000_positions', 'peaky_bags', 'wide_score_histories', 'adds_checked', 'old_readable_checked', 'weight_checked', 'paths_checked', 'boh_checked', 'single_checked']
 KNOWN_EMPTY = 'empty hypothesis added to an empty network'
 
 
@@ -388,12 +389,51 @@ def long_hypothesis(mon, ctx, rng, n):
         mon.violation('weight-conserved', {'lengths': [len(base), len(longer)], 'positions_with_another_total': bad[:5], 'total_there': sum(cn[bad[0]].values())})
 
 
+def faint_bags(mon, ctx):
+    """bags whose every hypothesis has a total log-score of -710 .. -725 (a long line under a strict LM): the raw weights are positive but below the smallest normal double"""
+    cnm = ctx.cnm
+    rng = np.random.default_rng([ctx.seed, 14, 725])
+    for it in range(40):
+        alpha = 'abc'
+        hyps = []
+        while len(hyps) < int(rng.integers(1, 4)):
+            h = rs(rng, 1, 5, alpha)
+            if h not in hyps:
+                hyps.append(h)
+        with_lm = bool(it % 2)
+        boh = ctx.BOH()
+        vis = [float(-rng.uniform(710, 720)) for _ in hyps]
+        lm = [float(-rng.uniform(0, 5)) for _ in hyps] if with_lm else [None] * len(hyps)
+        for h, v, l in zip(hyps, vis, lm):
+            boh.add(h, v, l)
+        mon.cur_desc = {'leg': 'faint bag', 'hyps': hyps, 'vis': vis, 'lm': lm}
+        weights = [math.exp(v + (l or 0.0)) for v, l in zip(vis, lm)]
+        if not all(0.0 < w < 2.3e-308 for w in weights):
+            continue
+        norm = cnm.produce_cn_from_boh(boh, visual_weight=1.0, lm_weight=1.0, normalize=True)
+        mon.count('bags_of_subnormal_weights')
+        mon.count('extra_evaluations')
+        bad = [k for k, pos in enumerate(norm) if abs(sum(pos.values()) - 1.0) > 1e-6]
+        if bad:
+            mon.violation('normalised-sums-to-1', {'hyps': hyps, 'vis': vis, 'lm': lm, 'position': bad[0], 'weights': {repr(k): v for k, v in norm[bad[0]].items()},
+                                                   'note': 'every raw weight is positive (about 1e-310); the position still has to be scaled to 1'})
+            continue
+        paths = cnm.sorted_cn_paths(norm)
+        tot = float(sum(p for _, p in paths))
+        if abs(tot - 1.0) > 1e-6:
+            mon.violation('paths-product', {'hyps': hyps, 'vis': vis, 'probabilities_sum_to': tot})
+        for h in hyps:
+            if not readable(norm, h):
+                mon.violation('new-readable', {'hyps': hyps, 'lost': h})
+
+
 def extra(mon, ctx):
     """a network of 13 positions with 3 arcs each: 1 594 323 arc combinations, every one enumerated once, in non-increasing order, probabilities summing to 1"""
     if ctx.shard == (1 if ctx.nshards > 1 else 0):
         long_hypotheses(mon, ctx)
     if ctx.shard != 0:
         return
+    faint_bags(mon, ctx)
     cnm = ctx.cnm
     rng = np.random.default_rng([ctx.seed, 14, 1313])
     cn = []
